@@ -158,7 +158,97 @@ class MarginalConsistency(Lemma):
         return (abs(got - want) > 1e-9 * max(1.0, abs(want)), {"interval": [a, b], "mass": float(got), "marginal_levy_mass": float(want)})
 
 
-UNITS = [FastPaths(2), FastPaths(3), Additivity(2), Additivity(3), MarginalConsistency()]
+_COP = {}
+_UF1 = z3.Function("U_marginal", z3.IntSort(), z3.RealSort(), z3.RealSort())     # U_i(x) = sgn(x) nu_i(I(x))
+
+
+def COP(us):
+    """abstract copula value F(u): every argument is encoded as (kind, value) with kind -1 / 0 / +1 for -inf / finite / +inf"""
+    d = len(us)
+    if d not in _COP:
+        _COP[d] = z3.Function(f"COPULA_{d}", *([z3.IntSort(), z3.RealSort()] * d + [z3.RealSort()]))
+    args = []
+    for u in us:
+        if not is_sym(u) and u in (INF, -INF):
+            args += [z3.IntVal(1 if u > 0 else -1), z3.RealVal(0)]
+        else:
+            args += [z3.IntVal(0), as_real_term(lift(u))]
+    return Sym(_COP[d](*args), "r")
+
+
+class MarginTailIntegral(FunctionContract):
+    """LevyCopulaModel.margin_tail_integral(indices, x) (real body, real `margin` operator and tail_integrals; the copula
+    and the one-dimensional tail integrals abstract): the I-margin of the copula evaluated at the marginal tail integrals
+    of the listed coordinates -- coordinate indices[k] receives U_{indices[k]}(x_k), every other coordinate is summed over
+    +-inf with its sign -- for every index list: single coordinates, pairs, the full family, in any order."""
+    prop = "C12"
+    target = LC + "LevyCopulaModel.margin_tail_integral"
+    name = "LevyCopulaModel.margin_tail_integral"
+    cases = tuple((d, idx) for d in (2, 3) for r in range(1, d + 1) for idx in itertools.permutations(range(d), r))
+
+    def configure(self, interp):
+        interp.hooks[LC + "LevyCopulaModel.marginal_tail_integral"] = lambda it, f, b: Sym(_UF1(as_int_term(lift(b["i"])), as_real_term(lift(b["x"]))), "r")
+        interp.hooks["rpylib.distribution.levycopula:LevyCopula.__call__"] = lambda it, f, b: COP(list(np.ravel(np.asarray(b["us"], dtype=object))))
+
+    def setup(self, vc, case):
+        d, idx = case
+        xs = vc.reals("x", len(idx))
+        vc.assume(And(*[x != 0 for x in xs]))
+        o = vc.obj(LC + "LevyCopulaModel", _full_indices=list(range(d)), _dimension=d, copula=vc.obj("rpylib.distribution.levycopula:LevyCopula"))
+        vc.ghost.update(xs=xs, case=case)
+        from pyvc.lib import _Iter
+        return dict(self=o, indices=list(idx), x=_Iter(list(xs)))
+
+    def ensures(self, result, **a):
+        from pyvc import ctx
+        g = ctx.PATH.ghost
+        d, idx = g["case"]
+        xs = g["xs"]
+        U = lambda i, x: Sym(_UF1(z3.IntVal(i), as_real_term(lift(x))), "r")
+        if len(idx) == 1:
+            return {"one-coordinate-margin-is-the-marginal-tail-integral": result == U(idx[0], xs[0])}
+        others = [j for j in range(d) if j not in idx]
+        want = 0
+        for p in itertools.product((-INF, INF), repeat=len(others)):
+            u = [None] * d
+            for k, i in enumerate(idx):
+                u[i] = U(i, xs[k])
+            for j, v in zip(others, p):
+                u[j] = v
+            sgn = 1
+            for v in p:
+                sgn *= 1 if v > 0 else -1
+            want = want + sgn * COP(u)
+        return {"I-margin-of-the-copula-at-the-listed-coordinates'-own-tail-integrals": result == want}
+
+    def replay(self, model, clause, case):
+        from contracts import battery
+        d, idx = case
+        cm = battery.copula_model(d, "clayton")
+        f = lambda v, dflt: float(v["float"]) if isinstance(v, dict) else (float(v) if v is not None else dflt)
+        xm = model.get("x") if isinstance(model.get("x"), list) else []
+        xs = [max(min(f(xm[k] if k < len(xm) else None, 0.1 * (k + 1) * (-1) ** k), 1.5), -1.5) or 0.2 for k in range(len(idx))]
+        if len(set(round(abs(v), 9) for v in xs)) < len(xs):      # the abstract counter-model need not separate the coordinates
+            xs = [0.1 * (k + 1) * (-1) ** k for k in range(len(idx))]
+        got = float(cm.margin_tail_integral(list(idx), iter(xs)))
+        # independent recomputation: coordinate idx[k] <- U_{idx[k]}(xs[k]); the others summed over +-inf with sign
+        from rpylib.numerical.tools import sign
+        U = [None] * d
+        for k, i in enumerate(idx):
+            U[i] = cm.marginal_tail_integral(i, xs[k])
+        others = [j for j in range(d) if j not in idx]
+        want = 0.0
+        for p in itertools.product((-np.inf, np.inf), repeat=len(others)):
+            u = list(U)
+            for j, v in zip(others, p):
+                u[j] = v
+            want += float(np.prod([np.sign(v) for v in p])) * float(cm.copula(np.array(u, dtype=float))) if others else float(cm.copula(np.array(u, dtype=float)))
+        if len(idx) == 1:
+            want = float(U[idx[0]])
+        return (abs(got - want) > 1e-9 * max(1.0, abs(want)), {"dimension": d, "indices": list(idx), "x": xs, "margin_tail_integral": got, "recomputed": want})
+
+
+UNITS = [FastPaths(2), FastPaths(3), Additivity(2), Additivity(3), MarginalConsistency(), MarginTailIntegral()]
 ASSUMPTIONS = ["A1: floats are mathematical reals", "(G) tail integrals vanish when a coordinate is infinite (C11 groundedness; nu_i((x, inf)) -> 0)",
                "non-negativity of the mass = d-increasing copula composed with monotone tail integrals (C11 + A6), not re-proved here",
                "equality with the integral of the joint density: d-dimensional fundamental theorem of calculus (A6)"]
